@@ -37,6 +37,11 @@ Check C14_on_disconnect_once : forall ids h, NoDup ids -> ids <> [] -> valid_his
   calls (run (init_engine ids) h) = spec_calls h /\
   outputs (init_engine ids) h = map spec_output h.
 
+Check C14_persist_restore_invariant : forall l e, run_steps e l = run e (events_of l).
+Check eq_refl : events_of [SPersist; SEvent (MarketItem 7); SPersist; SPersist; SEvent (AccountItem 0)]%N
+              = [MarketItem 7; AccountItem 0]%N.
+Check eq_refl : apply_hstep (init_engine [7]%N) SPersist = init_engine [7]%N.
+
 (* the definitions the statements rest on, pinned by evaluation *)
 Check eq_refl : valid_history [7; 3]%N [MarketItem 3; AccountItem 1; AccountReconnecting 7]%N = (true = true).
 Check eq_refl : valid_event [7; 3]%N (AccountItem 2) = false.
